@@ -23,12 +23,16 @@ property itself):
                     Until /repo commit f4f0e66b the full statement was refuted by a handler that is not a closure
                     (finding K07a, found here, replayed on the engine, repaired); the witness stays as
                     `regression_bad_handler`.
-                    `failed_build_is_noop_partial`, `not_FailedBuildIsNoop` (macros of a failed program stay defined).
+                    `failed_build_is_noop_iff` (exact decidable guard), `failed_build_is_noop_partial`,
+                    `failed_build_is_noop` (full, for a compiler that gives the macro environment back),
+                    `not_FailedBuildIsNoop`, `counter_macro_survives` (K07z), `counter_required_macro_survives` (K14f).
 -/
 import SteelVerif.C12.Props
 import SteelVerif.C07.Lemmas
+import SteelVerif.C07.Nested
 import SteelVerif.C07.LemmasBuild
 import SteelVerif.C07.LemmasArms
+import SteelVerif.C10.GenOps
 namespace SteelVerif.C07
 
 /-! ## (a) the front end never fails to answer -/
@@ -48,11 +52,38 @@ example : ∃ e, C12.read t!"(car '(1 2" = .error e := ⟨_, rfl⟩
 
 /-! ## (b) dispatch on value kinds -/
 
-/-- every pair of numeric kinds is handled by a non-panicking arm of every binary numeric primitive -/
-theorem arms_total : Gen.binaryTables.all (fun t => covers2 t.2) = true := by decide
+/-- every pair of numeric kinds is handled by a non-panicking arm of EVERY binary numeric dispatch — every `match` of
+numbers.rs / rvals.rs / strings.rs that dispatches on numeric variants, found by scanning the sources (not a list of
+names): + - * (add_two, add_two_fallible, multiply_two), the nine integer divisions, expt, log, `=` and the order -/
+theorem arms_total : Gen.binaryTables.all (fun t => covers2 t.2) = true := by decide +kernel
 
-/-- every numeric kind is handled by a non-panicking arm of every unary numeric primitive -/
-theorem arms_total_unary : Gen.unaryTables.all (fun t => covers1 t.2) = true := by decide
+/-- every numeric kind is handled by a non-panicking arm of every unary numeric dispatch (negate, the reciprocal of `/`,
+abs, sqrt, exact-integer-sqrt, the rounding functions, the predicates, the trigonometric functions, exact / inexact,
+number->string's format_number, ...), except the kinds exempted in LemmasArms.lean with a reason -/
+theorem arms_total_unary : Gen.unaryTables.all covers1x = true := by decide +kernel
+
+/-- no exemption is stale -/
+theorem arm_exemptions_needed : exemptionsNeeded = true := by decide +kernel
+
+/-- the scan found the dispatches of the entry points named by the property's design, and it found many -/
+theorem arm_tables_present :
+    (["add_two", "add_two_fallible", "multiply_two", "truncate_quotient", "floor_remainder", "expt", "number_equality",
+      "partial_cmp"].all (fun n => Gen.binaryTables.any (fun t => t.1 == n))) = true ∧
+    (["negate", "recip", "abs", "sqrt", "exact_integer_sqrt", "format_number", "numerator", "denominator"].all
+      (fun n => Gen.unaryTables.any (fun t => t.1 == n))) = true := by decide +kernel
+
+/-- the functions behind the VM's arithmetic / comparison op codes and behind the registered primitives
+`+ - * / = < > <= >=` (the names are C10's extraction, translate/c10_ops.py -> C10/GenOps.lean) reach only dispatch
+tables that are present and covered; the ones that dispatch on no numeric kind are named -/
+def nonDispatching : List String := ["checked_sub", "partial_le", "equality_primitive"]
+
+def opFunctions : List String :=
+  (C10.Gen.opDispatch.flatMap (fun o => o.2.1) ++ C10.Gen.registered.map (·.2)).eraseDups
+
+theorem op_entry_points_covered :
+    opFunctions.all (fun f =>
+      nonDispatching.contains f ||
+      Gen.entryReach.any (fun e => e.1 == f && e.2.length != 0 && reachCovered e.2)) = true := by decide +kernel
 
 /-- non-vacuity: the coverage test does fail on the table `multiply_two` had before /repo commit f0377ee5
 (no `(Rational, BigRational)` arm in front of `_ => unreachable!()`) -/
@@ -212,6 +243,35 @@ theorem history_stays_clean (fuel : Nat) (hist : List (List (List Code))) (t t' 
         have r2 := ih (t := t1) (os := os1) r1.1 hr hb.2 (by omega)
         exact ⟨r2.1, List.IsPrefix.trans r1.2 r2.2⟩
 
+/-! ### nested instances: a closure called from native code -/
+
+/-- Soundness of the way the recovery model represents native callbacks (a value, a failing primitive, or
+`callbackArity`): `call_with_one_arg` + `call_with_instructions_and_reset_state`, modelled in Nested.lean with the
+callback's body as arbitrary code (calls, handlers, errors, callback arity errors of its own), leave the enclosing
+instance — at any nesting depth `k` — with its `pop_count` unchanged and its invariant intact, whatever the outcome. -/
+theorem native_callback_keeps_invariant {b k fuel : Nat} {arityOk : Bool} {body : List Code} {t t' : Thread} {o : Outcome}
+    (hi : Inv b k t) (h : callWithOneArg fuel arityOk body t = (o, t')) (hb : (∃ v, o = .ok v) ∨ (∃ e, o = .error e)) :
+    Inv b k t' ∧ t'.popCount = t.popCount ∧ t.lost ≤ t'.lost ∧ t.globals <+: t'.globals :=
+  nested_instance_keeps_invariant hi h hb
+
+/-- … and, when no uncounted frame was left behind (always, for the code since /repo commit 27b7e09f), with exactly the
+frames it had: the callback's own frames are gone, also when it failed -/
+theorem native_callback_restores_frames {b k fuel : Nat} {body : List Code} {t t' : Thread} {o : Outcome}
+    (hi : Inv b k t) (h : callWithOneArg fuel true body t = (o, t')) (hb : (∃ v, o = .ok v) ∨ (∃ e, o = .error e))
+    (hl : t'.lost = t.lost) : t'.frames.length = t.frames.length :=
+  nested_instance_restores_frames hi h hb hl
+
+/-- non-vacuity: a callback that calls a procedure which fails two frames deep, from inside a procedure of the
+enclosing instance (one frame, `pop_count = 2`): the error comes back, the enclosing frame is still there, alone -/
+def enclosing : Thread := { frames := [{ sp := 0, handler := none, mark := false, ret := [] }], popCount := 2 }
+
+example : (callWithOneArg 100 true [.push 1, .call [.push 2, .call [.fail 7]]] enclosing).1 = .error 7 := by decide
+example : ((callWithOneArg 100 true [.push 1, .call [.push 2, .call [.fail 7]]] enclosing).2.frames.length,
+    (callWithOneArg 100 true [.push 1, .call [.push 2, .call [.fail 7]]] enclosing).2.popCount) = (1, 2) := by decide
+/-- a handler inside the callback catches the error: the callback returns a value -/
+example : (callWithOneArg 100 true [.handle true [.pop, .push 5] [.push 1, .fail 7]] enclosing).1 = .ok 5 ∧
+    (callWithOneArg 100 true [.handle true [.pop, .push 5] [.push 1, .fail 7]] enclosing).2.frames.length = 1 := by decide
+
 /-! ### non-vacuity of the recovery theorems -/
 
 /-- `(define g0 1) (+ 1 (car 5))`-like: a definition, then an error two frames deep with operands on the stack -/
@@ -306,31 +366,52 @@ def FailedBuildIsNoop : Prop :=
     ∀ (parseOk : Bool) (expand : List BuildOp) (defines : List Name) (refsResolve : Bool) (s s' : BuildState SM),
       build ops parseOk expand defines refsResolve s = (.err, s') → sameObservables s s'
 
-/-- the part that holds: programs that do not define macros at their top level — whatever modules they required,
-whatever they defined, wherever they failed (parser, expander, symbol resolution) -/
-theorem failed_build_is_noop_partial {SM : Type} (ops : SymMapOps SM) (spec : RollBackSpec ops)
+/-- EXACT: a failing build is a no-op if and only if the macro environment is given back by the roll-back
+(`Gen.buildRestoresMacros`, read from compile_raw_program / raw_program_to_executable on every run), or the failure is
+in the parser, or no op that was executed before the failure put a macro into the global macro map (a top-level
+`define-syntax`: finding K07z; the macros a required module provides: finding K14f) — whatever modules the program
+required, whatever it defined, wherever it failed (expander, symbol resolution) -/
+theorem failed_build_is_noop_iff {SM : Type} (ops : SymMapOps SM) (spec : RollBackSpec ops)
     (parseOk : Bool) (expand : List BuildOp) (defines : List Name) (refsResolve : Bool) (s s' : BuildState SM)
-    (hm : expand.all (fun o => !o.isMacro) = true)
-    (h : build ops parseOk expand defines refsResolve s = (.err, s')) : sameObservables s s' := by
+    (h : build ops parseOk expand defines refsResolve s = (.err, s')) :
+    sameObservables s s' ↔ (Gen.buildRestoresMacros = true ∨ parseOk = false ∨ executedMacros expand = []) := by
   unfold build at h
   simp only at h
   split at h
-  · cases h; exact ⟨rfl, rfl, rfl, rfl⟩
-  · split at h
+  · rename_i hp
+    cases h
+    simp at hp
+    exact ⟨fun _ => Or.inr (Or.inl hp), fun _ => ⟨rfl, rfl, rfl, rfl⟩⟩
+  · rename_i hp
+    simp at hp
+    split at h
     · rename_i s2 he
       have f := expandOps_frame _ _ _ _ he
       cases h
-      simp only [rollbackMetadata, f.2.2.1, f.2.1]
-      exact ⟨f.1, rfl, rfl, f.2.2.2.2 hm⟩
+      cases hr : Gen.buildRestoresMacros <;>
+        simp [sameObservables, rollbackMetadata, f.2.2.1, f.2.1, f.1, f.2.2.2.2, hp]
     · rename_i s2 he
       have f := expandOps_frame _ _ _ _ he
       split at h
       · cases h
       · cases h
-        simp only [rollbackMetadata, f.2.2.1, f.2.1]
-        refine ⟨?_, rfl, rfl, f.2.2.2.2 hm⟩
-        simp only [f.1]
-        exact spec.restores _ _
+        have hs := spec.restores s.symbols defines
+        cases hr : Gen.buildRestoresMacros <;>
+          simp [sameObservables, rollbackMetadata, f.2.2.1, f.2.1, f.1, f.2.2.2.2, hp, hs]
+
+/-- the part that holds in either configuration: programs that neither define macros at their top level nor bring
+macros of a module into scope -/
+theorem failed_build_is_noop_partial {SM : Type} (ops : SymMapOps SM) (spec : RollBackSpec ops)
+    (parseOk : Bool) (expand : List BuildOp) (defines : List Name) (refsResolve : Bool) (s s' : BuildState SM)
+    (hm : expand.all (fun o => !o.isMacro) = true)
+    (h : build ops parseOk expand defines refsResolve s = (.err, s')) : sameObservables s s' :=
+  (failed_build_is_noop_iff ops spec parseOk expand defines refsResolve s s' h).2
+    (Or.inr (Or.inr (executedMacros_nil_of_no_macro expand hm)))
+
+/-- the FULL statement, for a compiler whose failed builds give the macro environment back -/
+theorem failed_build_is_noop (hg : Gen.buildRestoresMacros = true) : FailedBuildIsNoop := by
+  intro SM ops spec parseOk expand defines refsResolve s s' h
+  exact (failed_build_is_noop_iff ops spec parseOk expand defines refsResolve s s' h).2 (Or.inl hg)
 
 /-- the list model of the symbol map used for the examples (`roll_back` = truncate) -/
 def listOps : SymMapOps (List Name) :=
@@ -355,21 +436,35 @@ def emptyBuild : BuildState (List Name) :=
     macros := ["cond"], sources := 0 }
 
 /-- non-vacuity: a program that requires a module, defines two names and then fails to resolve a reference -/
-example : (build listOps true [.requireModule "m1"] ["a", "b"] false emptyBuild).1 = .err := by decide
-example : (build listOps true [.requireModule "m1"] ["a", "b"] false emptyBuild).2.symbols = ["car"] := by decide
-example : (build listOps true [.requireModule "m1"] ["a", "b"] false emptyBuild).2.modules = ["m0"] := by decide
+example : (build listOps true [.requireModule "m1" []] ["a", "b"] false emptyBuild).1 = .err := by decide
+example : (build listOps true [.requireModule "m1" []] ["a", "b"] false emptyBuild).2.symbols = ["car"] := by decide
+example : (build listOps true [.requireModule "m1" []] ["a", "b"] false emptyBuild).2.modules = ["m0"] := by decide
 
-/-- `(define-syntax foo …) (undefined-thing 1)`: the build fails, `foo` stays defined (replayed on the real engine:
-`(foo 1)` evaluates afterwards) -/
-theorem counter_macro_survives :
+/-- `(define-syntax foo …) (undefined-thing 1)` on the code that does not give the macros back: the build fails, `foo`
+stays defined (K07z; replayed on the real engine: `(foo 1)` evaluates afterwards) -/
+theorem counter_macro_survives : Gen.buildRestoresMacros = false →
     (build listOps true [.defineMacro "foo", .failExpand] [] true emptyBuild).1 = .err ∧
     (build listOps true [.defineMacro "foo", .failExpand] [] true emptyBuild).2.macros = ["cond", "foo"] := by decide
 
-theorem not_FailedBuildIsNoop : ¬ FailedBuildIsNoop := by
+/-- `(require "m.scm") (undefined-thing 1)` where m provides the macro `mq`: the module table is rolled back, `mq`
+stays in scope (K14f; replayed: `(mq 1)` expands afterwards) — also when the failure is in symbol resolution -/
+theorem counter_required_macro_survives : Gen.buildRestoresMacros = false →
+    (build listOps true [.requireModule "m" ["mq"]] [] false emptyBuild).1 = .err ∧
+    (build listOps true [.requireModule "m" ["mq"]] [] false emptyBuild).2.modules = ["m0"] ∧
+    (build listOps true [.requireModule "m" ["mq"]] [] false emptyBuild).2.macros = ["cond", "mq"] := by decide
+
+/-- the same two programs on a compiler that gives the macros back -/
+theorem regression_macros_given_back : Gen.buildRestoresMacros = true →
+    (build listOps true [.defineMacro "foo", .failExpand] [] true emptyBuild).2.macros = ["cond"] ∧
+    (build listOps true [.requireModule "m" ["mq"]] [] false emptyBuild).2.macros = ["cond"] := by decide
+
+theorem not_FailedBuildIsNoop (hg : Gen.buildRestoresMacros = false) : ¬ FailedBuildIsNoop := by
   intro h
+  have w := counter_macro_survives hg
   have := h listOps listOps_spec true [.defineMacro "foo", .failExpand] [] true emptyBuild
-    (build listOps true [.defineMacro "foo", .failExpand] [] true emptyBuild).2 (Prod.ext (by decide) rfl)
+    (build listOps true [.defineMacro "foo", .failExpand] [] true emptyBuild).2 (Prod.ext w.1 rfl)
   have hm := this.2.2.2
+  rw [w.2] at hm
   revert hm
   decide
 
